@@ -1219,7 +1219,13 @@ pub fn gen_bytes(r: &mut Rng, n: usize) -> History {
     let ch = channel_arg;
     let style = r.below(4);
     let mut ops = Vec::with_capacity(n);
+    // mode switches are part of the public API: any framing rule must hold in every mode
+    ops.push(Op::Retrigger(r.chance(0.5)));
+    ops.push(Op::Priority(r.below(3) as u8));
     for _ in 0..n {
+        if r.chance(0.004) {
+            ops.push(if r.chance(0.5) { Op::Retrigger(r.chance(0.5)) } else { Op::Priority(r.below(3) as u8) });
+        }
         let b = match style {
             0 => r.below(256) as u8,
             1 => {
@@ -1295,7 +1301,7 @@ fn catalogue(ch: u8) -> Vec<Vec<u8>> {
 pub fn gen_catalogue(r: &mut Rng, ch: u8, which: usize, split: Option<usize>) -> History {
     let cat = catalogue(ch);
     let base = &cat[which % cat.len()];
-    let mut ops = Vec::new();
+    let mut ops = vec![Op::Retrigger(r.chance(0.5)), Op::Priority(r.below(3) as u8)];
     for (i, b) in base.iter().enumerate() {
         match split {
             Some(s) if s == i => {
